@@ -31,7 +31,10 @@ def cases(tier, seed):
         for ny in SIZES:
             for h in HALOS:
                 out.append({"nx": nx, "ny": ny, "halo": h, "tier": tier, "seed": seed})
-    return out
+    out_ = out
+    if tier == "thorough":
+        out_.append({"seed": seed, "kind": "repo_tests", "_cost": 40})
+    return out_
 
 
 def column():
@@ -43,6 +46,10 @@ def column():
 
 
 def run_case(case):
+    if case.get("kind") == "repo_tests":
+        from vlib import hooks
+
+        return hooks.run_repo_tests(ID, ['test_integration.py', 'test_interface.py', 'test_cache.py'])
     import numpy as np
     from vlib import gen, solve
 
